@@ -3,6 +3,7 @@ CONSTANTS
   Threads = {t1, t2}
   Keys = {k1}
   Locked = TRUE
+  OpSet = {"Set", "SetToTop", "Update", "Get", "Has", "Len", "Each", "Map"}
   OpsPerThread = 1
 INVARIANTS MutualExclusion
 PROPERTY Termination
